@@ -97,6 +97,8 @@ RichCalls ==
   \cup {[op |-> "alloc", a |-> 4], [op |-> "allocmul", l |-> 2, r |-> 3]}
   \cup {[op |-> "mul", l |-> t.m, r |-> u.m, prog |-> [op |-> "mul", l |-> t.p, r |-> u.p]] : t \in Templates, u \in Templates}
   \cup {FixCon(t, 0) : t \in Templates}
+  \* a constraint without any term (an empty sum of wires): it holds trivially but occupies a position, i.e. a power of z, on both sides
+  \cup {[op |-> "con", lc |-> << >>, prog |-> [op |-> "con", lc |-> << >>]]}
   \* deviations: at most MaxDev per behaviour; a second one lets errors of equal or opposite size meet at different positions
   \* (a sound verifier weighs every gate and constraint with its own monomial, so they can never cancel)
   \cup (IF hist.ndev >= MaxDev THEN {} ELSE
